@@ -27,6 +27,21 @@ from ..semantic import assignments, deep_circuits, one_gate_circuits, two_level_
 FILE = "tx.py"
 
 
+class EvalFail(Exception):
+    pass
+
+
+_sim = simulate
+
+
+def simulate(c, a):  # noqa: F811
+    from ..minieval import ModelRaise
+    try:
+        return _sim(c, a)
+    except (ModelRaise, ValueError, KeyError) as e:
+        raise EvalFail(f"{type(e).__name__}: {e}")
+
+
 def flips(c, n, a, endpoints):
     v = simulate(c, a)
     forced = dict(a)
@@ -62,6 +77,16 @@ def run(chk):
     ft = repo.func(FILE, "sensitivity_transform")
     n_eval = 0
     for kname, c in families(chk.tier):
+        try:
+            n_eval += per_circuit(chk, P, kname, c, fz, ft)
+        except (EvalFail, KeyError) as e:
+            chk.ob("C11.E.result-evaluable", f"{kname}", False, file=FILE, func="sensitization_transform/sensitivity_transform", fact={"problem": f"a transform result cannot be evaluated: {e}"})
+    chk.floor("evaluations", n_eval, 300)
+
+
+def per_circuit(chk, P, kname, c, fz, ft):
+    n_eval = 0
+    if True:
         sp_all = sorted(c.startpoints())
         eps = sorted(c.endpoints())
         for n in sorted(c.nodes()):
@@ -191,4 +216,4 @@ def run(chk):
             tot = sum(want.values())
             ok = r[0] == "return" and isinstance(r[1], (int, float)) and Fraction(r[1]).limit_denominator(1 << 20) == tot
             chk.ob("C11.M.avg_sensitivity", f"avg_sensitivity::{kname}::{n}", ok, file="props.py", func="avg_sensitivity", fact={"result": str(r)[:80], "expected": str(tot)}, expect=str(tot))
-    chk.floor("evaluations", n_eval, 300)
+    return n_eval
